@@ -14,6 +14,7 @@ import (
 	"fmt"
 	"net"
 	"sort"
+	"strings"
 	"sync"
 	"time"
 
@@ -27,7 +28,9 @@ import (
 
 	kaddht "github.com/libp2p/go-libp2p-kad-dht"
 	"github.com/libp2p/go-libp2p-kad-dht/crawler"
+	"github.com/libp2p/go-libp2p-kad-dht/internal/verif/vh"
 	"github.com/libp2p/go-libp2p-kad-dht/internal/verif/vsim"
+	pb "github.com/libp2p/go-libp2p-kad-dht/pb"
 )
 
 // vFrtPeer is one crawled peer of a generation.
@@ -294,4 +297,251 @@ func vFrtShorts(ps []peer.ID) []string {
 		out[i] = vsim.Short(p)
 	}
 	return out
+}
+
+// ---- generated validator (total rank order, optional expiry instant, bound to its key) -----------
+
+// vFrtVal renders a value "k=<key>;r=<rank>;e=<expiry unix ms or 0>;u=<tag>".
+func vFrtVal(key string, rank int, expiry time.Time, tag string) []byte {
+	e := int64(0)
+	if !expiry.IsZero() {
+		e = expiry.UnixMilli()
+	}
+	return []byte(fmt.Sprintf("k=%s;r=%d;e=%d;u=%s", key, rank, e, tag))
+}
+
+type vFrtParsed struct {
+	Key    string
+	Rank   int
+	Expiry int64
+	Tag    string
+}
+
+func vFrtParse(v []byte) (vFrtParsed, error) {
+	var p vFrtParsed
+	s := string(v)
+	parts := splitN(s, ';')
+	if len(parts) != 4 {
+		return p, errors.New("vfrt: malformed value")
+	}
+	if len(parts[0]) < 2 || parts[0][:2] != "k=" || len(parts[3]) < 2 || parts[3][:2] != "u=" {
+		return p, errors.New("vfrt: malformed value")
+	}
+	p.Key, p.Tag = parts[0][2:], parts[3][2:]
+	if _, err := fmt.Sscanf(parts[1], "r=%d", &p.Rank); err != nil {
+		return p, errors.New("vfrt: malformed rank")
+	}
+	if _, err := fmt.Sscanf(parts[2], "e=%d", &p.Expiry); err != nil {
+		return p, errors.New("vfrt: malformed expiry")
+	}
+	return p, nil
+}
+
+func splitN(s string, sep byte) []string {
+	var out []string
+	last := 0
+	for i := 0; i < len(s); i++ {
+		if s[i] == sep {
+			out = append(out, s[last:i])
+			last = i + 1
+		}
+	}
+	return append(out, s[last:])
+}
+
+// vFrtValidator is the generated validator: a value is valid for the key it names, until its
+// expiry instant; the higher rank wins, ties keep the earlier candidate.
+type vFrtValidator struct {
+	mu    sync.Mutex
+	Calls int
+}
+
+func (v *vFrtValidator) Validate(key string, value []byte) error {
+	v.mu.Lock()
+	v.Calls++
+	v.mu.Unlock()
+	return vFrtValidAt(key, value, time.Now())
+}
+
+// vFrtValidAt is the oracle's (pure) reading of the validator at instant t.
+func vFrtValidAt(key string, value []byte, t time.Time) error {
+	p, err := vFrtParse(value)
+	if err != nil {
+		return err
+	}
+	if p.Key != key {
+		return errors.New("vfrt: value made for another key")
+	}
+	if p.Expiry != 0 && t.UnixMilli() >= p.Expiry {
+		return errors.New("vfrt: value expired")
+	}
+	return nil
+}
+
+func (v *vFrtValidator) Select(key string, vals [][]byte) (int, error) {
+	best, bi := 0, -1
+	for i, x := range vals {
+		p, err := vFrtParse(x)
+		if err != nil {
+			continue
+		}
+		if bi < 0 || p.Rank > best {
+			best, bi = p.Rank, i
+		}
+	}
+	if bi < 0 {
+		return 0, errors.New("vfrt: no selectable value")
+	}
+	return bi, nil
+}
+
+func vFrtNsValidator() (record.NamespacedValidator, *vFrtValidator) {
+	v := &vFrtValidator{}
+	return record.NamespacedValidator{"v": v}, v
+}
+
+// ---- a FullRT whose table is a simulated network ---------------------------------------------------
+
+// vFrtNetCfg describes simulated peers (all crawled into the table) and the instance.
+type vFrtNetCfg struct {
+	NS           string // namespace of the peer ids
+	N            int
+	SimK         int
+	Frt          vFrtCfg
+	Kinds        []string        // per peer: ok | dead | reqerr | silent | late | dialfail | dialslow
+	Base         []time.Duration // per peer base latency
+	Disconnected []bool          // per peer: connection dropped after the crawl (operations must dial)
+	// Tweak, if set, adjusts the reply of peer i to its cnt-th request (after the kind was applied).
+	Tweak func(i, cnt int, req *pb.Message, rep *vsim.Reply)
+	// Extra peers known to everybody but not crawled (e.g. a FindPeer target).
+	Extra []*vsim.SimPeer
+}
+
+type vFrtNet struct {
+	Cfg  vFrtNetCfg
+	H    *vsim.Host
+	S    *vsim.Sim
+	D    *FullRT
+	Cr   *vFrtCrawler
+	IDs  []peer.ID
+	Idx  map[peer.ID]int
+	Self peer.ID
+}
+
+// vFrtNewNet builds everything inside the current bubble and waits for the initial crawl.
+func vFrtNewNet(caseIdx int, nc vFrtNetCfg, wait func()) (*vFrtNet, error) {
+	n := &vFrtNet{Cfg: nc, Idx: map[peer.ID]int{}}
+	n.Self = vsim.PeerID("frt-self", caseIdx)
+	n.H = vsim.NewHost(n.Self, ma.StringCast("/ip4/9.9.9.9/tcp/4001"))
+	n.S = vsim.NewSim(n.H, nc.SimK)
+	gen := &vFrtGen{}
+	for i := 0; i < nc.N; i++ {
+		id := vsim.PeerID(nc.NS, i)
+		n.IDs = append(n.IDs, id)
+		n.Idx[id] = i
+		addr := vFrtGroupAddr(i, 1, false)
+		sp := &vsim.SimPeer{ID: id, Addrs: []ma.Multiaddr{addr}}
+		kind, base, idx := nc.Kinds[i], nc.Base[i], i
+		if kind == "dead" {
+			sp.Dead = true
+		}
+		sp.Script = func(cnt int, req *pb.Message) vsim.Reply {
+			if req == nil {
+				switch kind {
+				case "dialfail":
+					return vsim.Reply{DialFail: true, Delay: base}
+				case "dialslow":
+					return vsim.Reply{DialFail: true, Delay: 20 * time.Second}
+				}
+				return vsim.Reply{}
+			}
+			rep := vsim.Reply{Delay: base + time.Duration((cnt*37+idx)%7)*time.Millisecond}
+			switch kind {
+			case "reqerr":
+				rep.Err = errors.New("vsim: stream reset by peer")
+			case "silent":
+				rep.Silent = true
+			case "late":
+				rep.Delay += 30 * time.Second
+			}
+			if nc.Tweak != nil {
+				nc.Tweak(idx, cnt, req, &rep)
+			}
+			return rep
+		}
+		n.S.Add(sp)
+		gen.Peers = append(gen.Peers, vFrtPeer{ID: id, Addrs: sp.Addrs})
+	}
+	for _, x := range nc.Extra {
+		n.S.Add(x)
+	}
+	n.S.KnowFull()
+	n.Cr = &vFrtCrawler{h: n.H}
+	n.Cr.Set(gen)
+	nc.Frt.Sim = n.S
+	d, err := vFrtNew(n.H, n.Cr, nc.Frt)
+	if err != nil {
+		n.H.Close()
+		return nil, err
+	}
+	n.D = d
+	wait()
+	for i, id := range n.IDs {
+		if nc.Disconnected[i] {
+			n.H.Net.Disconnect(id, false)
+		}
+	}
+	wait()
+	return n, nil
+}
+
+func (n *vFrtNet) Close() {
+	n.D.Close()
+	n.H.Close()
+}
+
+func (n *vFrtNet) Name(p peer.ID) string {
+	if p == n.Self {
+		return "self"
+	}
+	if i, ok := n.Idx[p]; ok {
+		return fmt.Sprintf("p%d", i)
+	}
+	return "x" + vsim.Short(p)
+}
+
+func (n *vFrtNet) Names(ps []peer.ID) []string {
+	out := make([]string, len(ps))
+	for i, p := range ps {
+		out[i] = n.Name(p)
+	}
+	return out
+}
+
+// vFrtCensus summarises the goroutines of the current bubble that were started by code of the
+// module under test.
+func vFrtCensus() []string {
+	var gs []vh.Goro
+	for _, g := range vh.Census() {
+		if strings.Contains(g.Header, "synctest") {
+			gs = append(gs, g)
+		}
+	}
+	return vh.CensusSummary(gs)
+}
+
+// vFrtLastWire returns the instant of the last simulated RPC / dial conclusion not after `end`.
+func vFrtLastWire(n *vFrtNet, from, end time.Time) time.Time {
+	last := from
+	for _, e := range n.S.Log() {
+		if e.VT.After(last) && !e.VT.After(end) {
+			last = e.VT
+		}
+	}
+	for _, d := range n.H.DialLog() {
+		if d.End.After(last) && !d.End.After(end) {
+			last = d.End
+		}
+	}
+	return last
 }
